@@ -202,11 +202,12 @@ class SpecGen:
         if x < 0.8 and cfg["step_params"]:
             return {"t": "step", "name": nm, "params": {"p": self.pick_any()}}
         if cfg["pipelines"]:
-            steps = [{"t": "fn", "name": nm + "a"}]
-            if cfg["step_params"]:
-                steps.append({"t": "step", "name": nm + "b", "params": {"p": self.pick_any()}})
-            else:
-                steps.append({"t": "fn", "name": nm + "b"})
+            steps = []
+            for j in range(r.randint(2, 3)):
+                if cfg["step_params"] and r.random() < 0.6:
+                    steps.append({"t": "step", "name": f"{nm}{'abc'[j]}", "params": {"p": self.pick_any()}})
+                else:
+                    steps.append({"t": "fn", "name": f"{nm}{'abc'[j]}"})
             return {"t": "pipeline", "steps": steps}
         return {"t": "fn", "name": nm}
 
